@@ -731,9 +731,9 @@ Proof.
       + simpl. rewrite Hi. eauto.
       + assert (Hn : pair_value lc it = None).
         { destruct it as [t v| tg vl | p |]; simpl in *; auto. rewrite EH. reflexivity. }
-        destruct IH as [i Hi].
-        destruct (set_pair_go rest tag lc value) as [r|]; simpl; rewrite Hn, Hi; eauto. }
-  destruct (G items) as [i Hi]. rewrite Hi. reflexivity.
+        destruct IH as [i Hfound].
+        destruct (set_pair_go rest tag lc value) as [r|]; simpl; rewrite Hn, Hfound; eauto. }
+  destruct (G items) as [i Hfound]. rewrite Hfound. reflexivity.
 Qed.
 
 Lemma find_map_idx_ext : forall A B (f : A -> option B) (l l' : list A),
@@ -761,7 +761,7 @@ Proof.
   intros items tag value tag' Hnl Hne. unfold find_value, after_set_pair.
   set (lc := to_lower tag). set (lc' := to_lower tag').
   assert (Hnew1 : pair_value lc' (Pair tag value) = None).
-  { simpl. destruct (iequal tag lc') eqn:E; auto. apply iequal_spec in E. congruence. }
+  { simpl. destruct (iequal tag lc') eqn:E; auto. apply iequal_spec in E. unfold lc, lc' in *. congruence. }
   assert (Hnew2 : one_row_value lc' (Pair tag value) = None) by reflexivity.
   assert (G : forall its,
     (forall tags vals, In (Loop tags vals) its -> find_tag_lc tags lc = None) ->
@@ -779,8 +779,8 @@ Proof.
     - destruct it as [t v| tg vl | p |]; simpl in EH; try discriminate.
       + split; constructor; auto.
         simpl. apply iequal_spec in EH.
-        destruct (iequal t lc') eqn:E2; [apply iequal_spec in E2; congruence|].
-        destruct (iequal tag lc') eqn:E3; [apply iequal_spec in E3; congruence|]. reflexivity.
+        destruct (iequal t lc') eqn:E2; [apply iequal_spec in E2; unfold lc, lc' in *; congruence|].
+        destruct (iequal tag lc') eqn:E3; [apply iequal_spec in E3; unfold lc, lc' in *; congruence|]. reflexivity.
       + rewrite (Hl tg vl) in EH by (left; reflexivity). discriminate.
     - specialize (IH (fun tags vals Hin => Hl tags vals (or_intror Hin))).
       destruct (set_pair_go rest tag lc value) as [r|]; simpl; auto.
@@ -832,14 +832,19 @@ Proof.
   intros tags vals Hne HR Hpos. cbn [loop_apply].
   pose proof (rect_length _ _ HR Hne) as H1.
   destruct tags as [|t0 tr]; [congruence|].
-  set (tg := t0 :: tr) in *.
-  assert (Hw : 0 < length tg) by (unfold tg; simpl; lia).
+  assert (Hw0 : 0 < length (t0 :: tr)) by (simpl; lia).
+  remember (t0 :: tr) as tg eqn:Etg.
+  assert (Hw : 0 < length tg) by exact Hw0.
   assert (E : length vals <? length tg = false) by (apply Nat.ltb_ge; nia).
   rewrite E. simpl. split; auto. split; auto.
-  assert (HR' : rect_loop tg (firstn (length vals - length tg) vals)).
-  { exists (loop_length tg vals - 1). rewrite firstn_length. nia. }
+  remember (loop_length tg vals) as L eqn:EL.
+  destruct L as [|L]; [lia|].
+  assert (Hf : length (firstn (length vals - length tg) vals) = L * length tg).
+  { rewrite firstn_length. rewrite H1. simpl. lia. }
+  assert (HR' : rect_loop tg (firstn (length vals - length tg) vals)) by (exists L; exact Hf).
   pose proof (rect_length _ _ HR' Hne) as H2.
-  rewrite firstn_length in H2. nia.
+  rewrite Hf in H2. f_equal.
+  apply Nat.mul_cancel_r in H2; lia.
 Qed.
 
 Lemma pop_row_empty : forall tags vals,
